@@ -38,6 +38,7 @@ structure DState where
   gscale : Bool := false
   gqs   : List QDecl := []
   nst   : NS := {}
+  nstore : Store := []
 
 def insertByName (p : Nat × Int) : List (Nat × Int) → List (Nat × Int)
   | [] => [p]
@@ -108,7 +109,11 @@ def showNS (s : NS) : String :=
 
 def stepNode (s : DState) (kind : String) (rest : List String) : DState :=
   match (ints? rest).bind (parseNEv kind) with
-  | some e => let n := s.nst.step rlSub e; { s with nst := n, out := s.out ++ [showNS n] }
+  | some e =>
+    -- the hypothesis of `total_eq_sum_of_current_nodes` is checked on every generated event
+    if !coherent s.nstore e then { s with bad := true, out := s.out ++ ["incoherent-node-event"] } else
+    let n := s.nst.step rlSub e
+    { s with nst := n, nstore := stStep s.nstore e, out := s.out ++ [showNS n] }
   | none => { s with bad := true, out := s.out ++ ["bad-op"] }
 
 def stepLine (s : DState) (line : String) : DState :=
